@@ -16,7 +16,7 @@ VERIF = os.path.dirname(os.path.dirname(os.path.abspath(__file__)))
 
 
 def sh(cmd, cwd=None, env=ENV, timeout=3600):
-    r = subprocess.run(cmd, cwd=cwd, env=env, shell=isinstance(cmd, str), capture_output=True, text=True, timeout=timeout)
+    r = subprocess.run(cmd, cwd=cwd, env=env, shell=isinstance(cmd, str), capture_output=True, text=True, errors="replace", timeout=timeout)
     return r.returncode, r.stdout + r.stderr
 
 
@@ -62,11 +62,22 @@ def main():
             bad = [l for l in o.splitlines() if l.startswith("FAIL") or l.startswith("--- FAIL")]
             bad = [l for l in bad if "flowrate" not in l and "eth/crypto/ecies" not in l  # ecies fails at HEAD (flag parsing), not in the baseline list
                     and l.strip() != "FAIL" and "TestWriter" not in l and "TestReader" not in l]
+            # packages with timing tests fail under the load of parallel checks: run each failing package once more, alone
+            still = []
+            for l in bad:
+                if l.startswith("FAIL\t"):
+                    pkg = l.split("\t")[1].replace("github.com/dappledger/AnnChain", ".")
+                    rc2, o2 = sh(["go", "test", "-vet=off", "-count=1", pkg], cwd=wt)
+                    if rc2 != 0:
+                        still.append(l)
+            if bad and not still:
+                res["suite_note"] = "failed under load, passed alone: " + "; ".join(l for l in bad if l.startswith("FAIL\t"))
+                bad = []
             res["suite"] = "ok" if not bad else bad[:10]
             res["suite_s"] = int(time.time() - t0)
         for c in checks:
             t0 = time.time()
-            env = dict(ENV, VERIF_REPO=wt, VERIF_OUT=out, VERIF_SCRATCH="/var/tmp/verif-scratch-seed-" + sid)
+            env = dict(ENV, VERIF_REPO=wt, VERIF_OUTDIR=out, VERIF_SCRATCH="/var/tmp/verif-scratch-seed-" + sid)
             cid, _, seed = c.partition("@")
             cmd = [os.path.join(VERIF, "verif"), "check", cid, tier]
             if seed:
